@@ -23,7 +23,7 @@ type C16Case struct {
 }
 
 var c16Types = []string{rig.TLogon, rig.TLogout, rig.THeartbeat, rig.TTestRequest, rig.TResendRequest}
-var c16Damages = []string{"checksum", "bodylength", "field", "seqtext", "seqtext+checksum", "noseq+checksum", "noseq+bodylength", "state"}
+var c16Damages = []string{"checksum", "bodylength", "field", "seqtext", "seqtext+checksum", "noseq+checksum", "noseq+bodylength", "state", "checksum-spelling", "bodylength-extreme"}
 var c16States = []string{"waiting", "logged", "afterlogout", "probing"} // probing: logged on, the session's own TestRequest is unanswered
 
 func genC16(t *rapid.T) *C16Case {
@@ -88,7 +88,7 @@ func genC16(t *rapid.T) *C16Case {
 	}
 	by := rapid.IntRange(0, 300).Draw(t, "by")
 	switch c.Damage {
-	case "checksum", "bodylength":
+	case "checksum", "bodylength", "checksum-spelling", "bodylength-extreme":
 		m.Damage, m.DamageBy = c.Damage, by
 	case "field":
 		// a numeric field that is not a number: header LastMsgSeqNumProcessed, or the type's own
@@ -103,7 +103,10 @@ func genC16(t *rapid.T) *C16Case {
 				m.Fields[1] = rig.F(rig.TagHeartBtInt, "3O")
 			}
 		default:
-			switch rapid.IntRange(0, 2).Draw(t, "whichField") {
+			switch rapid.IntRange(0, 3).Draw(t, "whichField") {
+			case 3:
+				// a numeric field INSIDE an entry of the header's repeating group (HopRefID of NoHops)
+				m.PreSeq = append(m.PreSeq, rig.F("627", "1"), rig.F("628", "HUB"), rig.F("630", rapid.SampledFrom([]string{"abc", "1x", "-"}).Draw(t, "badHopRef")))
 			case 0:
 				// the count field of the header's repeating group (NoHops)
 				m.PreSeq = append(m.PreSeq, rig.F("627", rapid.SampledFrom([]string{"x", "1x", "two"}).Draw(t, "badHops")))
